@@ -12,8 +12,10 @@ Binding (fault enumeration, harness/lifecycle.py):
                 time) with a real SimpleEtherCat / FastEtherCat attached to harness.simbus.  A
                 reference run finds the number N of event-loop iterations up to the end of the
                 second cycle; then one run per k = 0..N calls task.cancel() after exactly k
-                iterations (k = 0: before the task's first step).  Thorough: additionally, for every
-                k, a second cancel() after each further iteration until the task is done.
+                iterations (k = 0: before the task's first step); for every k a second cancel()
+                after each later iteration until the task is done (it lands in the clean-up), and
+                for the configurations with three read-write terminals [thorough: all gating
+                configurations] a third one after each iteration later still.
                 fast: register_sync_group is the real method; ec.programs is a real kernel
                 PROG_ARRAY and sg.load() really loads the group's program when the kernel is
                 usable (else a dictionary behind lookup/update/delete_elem and a fake load).
@@ -47,13 +49,20 @@ def async_configs(quick):
         out.append(config(kind, 3, (True, True, False), (4, 4, 4)))
         out.append(config(kind, 2, (True, False), (2, 4), delay=0.0005, al_lag=1))
         out.append(config(kind, 2, (True, True), (4, 4), fmmu=(False, True)))
+        out.append(config(kind, 3, (True, True, True), (4, 2, 4), delay=0.003, al_lag=2))
         if not quick:
-            out.append(config(kind, 3, (True, True, True), (4, 2, 4), delay=0.003, al_lag=2))
             out.append(config(kind, 3, (False, True, True), (4, 4, 4), delay=0.0, al_lag=1,
                               cycletime=0.002))
             out.append(config(kind, 1, (True,), (4,), delay=0.012))
             out.append(config(kind, 2, (False, False), (4, 4)))
     return out
+
+
+def deep_configs(quick):
+    cfgs = async_configs(quick)
+    if not quick:
+        return cfgs
+    return [c for c in cfgs if sum(c["rw"]) == 3]
 
 
 def random_config(rng):
@@ -175,8 +184,10 @@ def validate(ctx, wd, traces, chunk=3000, timeout=900):
 
 # ---------------------------------------------------------------------------------------------
 
-def run_async_cases(ctx, cfg):
-    """all single (and in thorough: double) cancellations of one slow/fast configuration"""
+def run_async_cases(ctx, cfg, depth):
+    """all cancellation sequences of one slow/fast configuration: the first cancel() after every
+    iteration k up to the end of the second cycle, every further cancel() after every later
+    iteration in which the task is still alive; depth(k) = how many cancels for this k"""
     from harness import lifecycle as L
     ref = L.run_async_kind(cfg, ())
     if ref["cancel_iters"]:
@@ -189,14 +200,20 @@ def run_async_cases(ctx, cfg):
             dict(cfg=cfg, outcome=next((e["outcome"] for e in ref["ev"] if e["t"] == "done"), None)))
         ref["cancel_iters"] = [n]
     cases = []
+
+    def explore(prefix, depth):
+        """the run with cancel() after the iterations in `prefix`, then - while the task is still
+        cleaning up - one more cancel() after every later iteration, down to `depth` cancels"""
+        r = L.run_async_kind(cfg, tuple(prefix))
+        if len(r["cancel_iters"]) != len(prefix):
+            return                      # the task was done before the last cancel() was due
+        cases.append((dict(kind=cfg["kind"], cfg=cfg, cancels=list(prefix), ref_iters=n), r))
+        if len(prefix) < depth and r["done_iter"] is not None:
+            for j in range(prefix[-1] + 1, r["done_iter"]):
+                explore(prefix + [j], depth)
+
     for k in range(n + 1):
-        r = L.run_async_kind(cfg, (k,))
-        cases.append((dict(kind=cfg["kind"], cfg=cfg, cancels=[k], ref_iters=n), r))
-        if not ctx.quick and r["done_iter"] is not None:
-            for j in range(k + 1, r["done_iter"]):
-                r2 = L.run_async_kind(cfg, (k, j))
-                if len(r2["cancel_iters"]) == 2:
-                    cases.append((dict(kind=cfg["kind"], cfg=cfg, cancels=[k, j], ref_iters=n), r2))
+        explore([k], depth(k))
     return ref, cases
 
 
@@ -253,8 +270,12 @@ def run(ctx):
         ctx.extra["gating_configs"] = len(configs)
         ctx.extra["seeded_configs"] = n_extra
         configs += [random_config(ctx.rng) for _ in range(n_extra)]
-        for cfg in configs:
-            ref, cases = run_async_cases(ctx, cfg)
+        for ci, cfg in enumerate(configs):
+            # how many cancel() calls per run: two everywhere (the second one lands in the
+            # clean-up); three for the configurations with the most read-write terminals of each
+            # kind [thorough: for every gating configuration]
+            deep = cfg in deep_configs(ctx.quick)
+            ref, cases = run_async_cases(ctx, cfg, (lambda k, deep=deep: 3 if deep else 2))
             points.setdefault(cfg["kind"], []).append(ref["cancel_iters"][0] + 1)
             todo += cases
             if cfg["kind"] == "fast":
@@ -262,19 +283,31 @@ def run(ctx):
                     if ref.get("kernel") else "dictionary (kernel bpf() not usable)"
         # what happens without the harness translating lookup_elem's KeyError (see assumptions)
         if ctx.extra.get("fast_program_table", "").startswith("kernel"):
-            r = L.run_async_kind(async_configs(True)[3], (), translate=False)
+            r = L.run_async_kind(next(c for c in async_configs(True) if c["kind"] == "fast"), (),
+                                 translate=False)
             ctx.extra["observation_register_sync_group_untranslated"] = \
                 next((e["outcome"] for e in r["ev"] if e["t"] == "done"), None)
         todo += run_process_cases(ctx)
     finally:
         model_check_finish(ctx, started)
-    results = validate(ctx, wd, [dict(kind=c["kind"], ev=_strip(r["ev"])) for c, r in todo])
+    # many cancellation sequences leave the same record: TLC judges every distinct record once
+    import json
+    traces = [dict(kind=c["kind"], ev=_strip(r["ev"])) for c, r in todo]
+    keys = [json.dumps(t, sort_keys=True) for t in traces]
+    first = {}
+    for i, k in enumerate(keys):
+        first.setdefault(k, i)
+    order = sorted(first.values())
+    verdict = dict(zip(order, validate(ctx, wd, [traces[i] for i in order])))
+    results = [verdict[first[k]] for k in keys]
+    ctx.extra["distinct_records"] = len(order)
     ctx.exhaustive = True
     ctx.extra["cancellation_points_per_config"] = points
     ctx.rule = ("one case = one run of a real sync-group task (slow / fast: one of the listed "
                 "terminal configurations, cancel() after exactly k event-loop iterations for every "
-                "k up to the end of the second cycle [thorough: x every later iteration for a "
-                "second cancel()]; process: one of the named points x optional second cancel()); "
+                "k up to the end of the second cycle x every later iteration for a second cancel() "
+                "[x every iteration later still for a third: three-writer configurations; "
+                "thorough: all gating configurations]; process: one of the named points x optional second cancel()); "
                 "non-trivial = the group held something (an FMMU, an unanswered OPERATIONAL "
                 "request, its program-table entry, a running child) when cancel() was called")
     ctx.assumptions += [
